@@ -136,6 +136,13 @@ def federations(thorough):
     F.append(('dup-in-doc:idpA+idpA-v1', [{'kind': 'multi', 'entities': [E('idpA'), E('idpA', 1)]}]))
     F.append(('known-elsewhere:spX|idpA+aa', [{'kind': 'single', 'entities': [E('spX')]}, {'kind': 'multi', 'entities': [E('idpA'), E('aa')]}]))
     F.append(('expired-doc-then-good', [{'kind': 'multi', 'valid_until': 'past', 'entities': [E('idpA', 1)]}, {'kind': 'single', 'entities': [E('idpA')]}]))
+    # a remote source that opted out of validity checking, followed by sources holding expired metadata
+    rem = {'kind': 'single', 'entities': [E('spX')], 'via': 'remote', 'check_validity': False}
+    F.append(('remote-novalidity|expired', [rem, {'kind': 'single', 'entities': [E('expired')]}]))
+    F.append(('remote-novalidity|expired-doc', [rem, {'kind': 'multi', 'valid_until': 'past', 'entities': [E('idpA', 1)]}]))
+    F.append(('remote-novalidity|expired+idpA', [rem, {'kind': 'multi', 'entities': [E('expired'), E('idpA')]}]))
+    F.append(('remote-default-expired', [{'kind': 'multi', 'entities': [E('expired'), E('fresh')], 'via': 'remote'}]))
+    F.append(('expired|remote-novalidity', [{'kind': 'single', 'entities': [E('expired')]}, rem]))
     if thorough:
         for a, b, c in itertools.permutations(['idpA', 'spX', 'dual', 'expired'], 3):
             F.append(('three:%s|%s|%s' % (a, b, c), [{'kind': 'single', 'entities': [E(x)]} for x in (a, b, c)]))
@@ -171,10 +178,32 @@ def build_store(docs):
     conf.xmlsec_binary = world.XMLSEC
     mds = MetadataStore(ac_factory(), conf)
     err = None
-    for d in docs:
+
+    class _Resp(object):
+        def __init__(self, body):
+            self.status_code = 200
+            self.content = body.encode('utf-8')
+            self.text = body
+
+    class _Http(object):
+        def __init__(self):
+            self.pages = {}
+
+        def send(self, url, *a, **k):
+            return _Resp(self.pages[url])
+    mds.http = _Http()
+    for i, d in enumerate(docs):
         p = world.write_md(TMP[0], doc_xml(d))
         try:
-            mds.load('local', p)
+            if d.get('via') == 'remote':
+                url = 'https://md.example/%d' % i
+                mds.http.pages[url] = doc_xml(d)
+                kw = {'url': url}
+                if 'check_validity' in d:
+                    kw['check_validity'] = d['check_validity']
+                mds.load('remote', **kw)
+            else:
+                mds.load('local', p)
         except Exception as e:
             err = type(e).__name__
             if not (d['kind'] == 'multi' and d.get('valid_until') == 'past'):
